@@ -499,6 +499,106 @@ func c18Run(c *Ctx, r gen.R, lc layoutCase, caseNo int64, tag string) {
 			return
 		}
 	}
+	// ---- the other decoding entry points agree with Unmarshal, share no memory with their input either, and an element of an
+	// array is not affected by the element decoded before it (a second value of the same layout: v2, this one, v2)
+	{
+		v2 := reflect.New(typ).Elem()
+		vals2 := map[string]rm.Val{}
+		for _, f := range lc.fields {
+			if f.fixed >= 0 {
+				fieldByName(v2, f).Set(fieldByName(v, f))
+				vals2[f.name] = vals[f.name]
+				continue
+			}
+			gv, nv := c18Value(r, f.k, f)
+			fieldByName(v2, f).Set(gv)
+			vals2[f.name] = nv
+		}
+		enc2, e2 := codec.Marshal(v2.Interface())
+		check := func(entry string, got reflect.Value, expect map[string]rm.Val, what string) bool {
+			for i := range lc.fields {
+				f := lc.fields[i]
+				g := c18Read(f.k, fieldByName(got, f))
+				if !rm.Equal(g, expect[f.name]) {
+					c.Res.Violate(c18Key(lc, entry, &f), fmt.Sprintf("layout [%s]: %s: field %s is %v, encoded %v", lc, what, f.name, g, expect[f.name]), w(map[string]any{"bytes": wk.Hex(enc), "entry_point": entry}), caseNo)
+					return false
+				}
+			}
+			return true
+		}
+		func() {
+			defer func() {
+				if p := recover(); p != nil {
+					c.Res.Violate(c18Key(lc, "decode-panic", single), fmt.Sprintf("a decoding entry point panicked for layout [%s]: %v", lc, p), w(map[string]any{"bytes": wk.Hex(enc)}), caseNo)
+				}
+			}()
+			// UnmarshalAs (by value and by pointer)
+			b1 := append([]byte{}, enc...)
+			var as any
+			var aerr error
+			if caseNo%2 == 0 {
+				as, aerr = codec.UnmarshalAs(b1, reflect.New(typ).Elem().Interface())
+			} else {
+				as, aerr = codec.UnmarshalAs(b1, reflect.New(typ).Interface())
+			}
+			c.Res.Eval(1)
+			if aerr != nil || as == nil {
+				c.Res.Violate(c18Key(lc, "decode-error", single), fmt.Sprintf("UnmarshalAs failed for layout [%s]: %v", lc, aerr), w(map[string]any{"bytes": wk.Hex(enc)}), caseNo)
+				return
+			}
+			for i := range b1 {
+				b1[i] ^= 0xa5
+			}
+			if !check("unmarshal-as", reflect.ValueOf(as), vals, "UnmarshalAs (input buffer overwritten afterwards)") {
+				return
+			}
+			// UnmarshalArrayElement
+			b2 := append([]byte{}, enc...)
+			el, eerr2 := codec.UnmarshalArrayElement(b2, reflect.New(reflect.SliceOf(typ)).Interface())
+			c.Res.Eval(1)
+			if eerr2 != nil || el == nil {
+				c.Res.Violate(c18Key(lc, "decode-error", single), fmt.Sprintf("UnmarshalArrayElement failed for layout [%s]: %v", lc, eerr2), w(map[string]any{"bytes": wk.Hex(enc)}), caseNo)
+				return
+			}
+			for i := range b2 {
+				b2[i] ^= 0xa5
+			}
+			if !check("unmarshal-array-element", reflect.ValueOf(el), vals, "UnmarshalArrayElement (input buffer overwritten afterwards)") {
+				return
+			}
+			// UnmarshalArray: [v2, v, v2]
+			if e2 != nil {
+				return
+			}
+			list := [][]byte{append([]byte{}, enc2...), append([]byte{}, enc...), append([]byte{}, enc2...)}
+			arr := reflect.New(reflect.SliceOf(typ))
+			c.Res.Eval(1)
+			if lerr := codec.UnmarshalArray(list, arr.Interface()); lerr != nil || arr.Elem().Len() != 3 {
+				c.Res.Violate(c18Key(lc, "decode-error", single), fmt.Sprintf("UnmarshalArray of three messages failed for layout [%s]: %v (%d elements)", lc, lerr, arr.Elem().Len()), w(map[string]any{"bytes": wk.Hex(enc)}), caseNo)
+				return
+			}
+			for _, b := range list {
+				for i := range b {
+					b[i] ^= 0xa5
+				}
+			}
+			if check("unmarshal-array", arr.Elem().Index(0), vals2, "UnmarshalArray element 0") && check("unmarshal-array", arr.Elem().Index(1), vals, "UnmarshalArray element 1 (decoded after another value of the layout)") {
+				check("unmarshal-array", arr.Elem().Index(2), vals2, "UnmarshalArray element 2")
+			}
+			// an element of an array is what the same bytes decode to on their own - down to a pointer being nil or not
+			for i := range lc.fields {
+				f := lc.fields[i]
+				if !f.k.ptr {
+					continue
+				}
+				alone, inArray := fieldByName(out.Elem(), f).IsNil(), fieldByName(arr.Elem().Index(1), f).IsNil()
+				if alone != inArray {
+					c.Res.Violate(c18Key(lc, "unmarshal-array", &f), fmt.Sprintf("layout [%s]: pointer field %s: the same bytes decode to nil=%v on their own and to nil=%v as the second element of an array (after an element in which the field was %v)", lc, f.name, alone, inArray, vals2[f.name]), w(map[string]any{"bytes": wk.Hex(enc), "entry_point": "unmarshal-array"}), caseNo)
+					break
+				}
+			}
+		}()
+	}
 	// enforcement of function code / protocol id / fixed values on decode
 	if lc.msgType >= 0 {
 		bad := append([]byte{}, enc...)
